@@ -55,6 +55,9 @@ CLAIMED['C15'] = ('other', 'mixed: (a) the per-object converters of the three en
 CLAIMED['C16'] = ('other', 'mixed, same machinery as C15: on pairs of objects with symbolic status/colour z3 decides that encodings are equal iff the objects are, that the default encoding is the index triple and that the no-overlap and compact channels use strictly ordered (hence disjoint) value ranges; the compact maps are checked to be exactly 0..n-1; real objects: ==/hash consistent with the encoding; cell-wise lemma (entry (y,x) is the encoding of the object in that cell for every position and every other content; agent marker exactly at the agent cell); changing one component of a state changes its representation, equal states have equal representations and hashes',
                   'trusts z3, the proxy layer, numpy; Box content is not part of object equality by design', 'DESIGN.md §5 C16')
 
+CLAIMED['C20'] = ('other', 'partial scope (DESIGN.md C20): bounded symbolic execution of GymEnvironment / GymStateWrapper wrapped directly around OuterEnv(GridWorld) with a lazily symbolic inner state and a symbolic action index over permuted / partial action spaces: step(i) executes the i-th action and returns the representation of the observation of the functional next state, the inner reward and flag and an empty info, inside the advertised spaces; reset returns the observation of the fresh state; the state wrapper and representation switching behave as documented',
+                  'trusts z3, the proxy layer, the stubs, gym 0.26.2 space classes; gym.make(<id>) and GymEnvironment.seed are outside (installed gym is 0.26, the repository targets gym<=0.21)', 'DESIGN.md §5 C20')
+
 NOT_APPLICABLE = {
     'C19': 'floating-point trigonometric ray kernel (sin/cos/arctan2 via libm/numpy, round-to-nearest of accumulated float steps): no SMT theory for the transcendental part, the only FP-expressible lemma timed out (300 s) on z3 and cvc5, and the remaining inputs form a small finite domain a solver would merely enumerate; see DESIGN.md §5 C19',
 }
